@@ -9,6 +9,8 @@ non-blank characters are `//@`):
                                        dropped except the listed derives; `pub(crate)` -> `pub`)
   //@fn FILE [impl="HEADER"] name=NAME [ret=r] [rules=W1,W2] [as=NEWNAME] [vis=pub] [sigsub="a=>b"]
       <contract clauses, copied verbatim between signature and body>
+      //@inv? REGEX     like //@inv, but skipped without complaint if no loop head matches (the function may have
+                         stopped looping)
       //@inv REGEX      <invariant/decreases lines inserted between the head of the loop whose head line
                          matches REGEX and its `{`>    ... //@endinv
       //@at REGEX       <lines inserted before the first body line matching REGEX>  ... //@endat
@@ -591,6 +593,7 @@ class Unit:
                 self.rw.hit('Wsub')
         # --- contract block: split into clauses / inv / at ---
         clauses, invs, ats, afters, blockends, afteropens = [], [], [], [], [], []
+        optional_invs = set()
         k = 0
         while k < len(block):
             lno, ln = block[k]
@@ -605,6 +608,10 @@ class Unit:
                 afteropens.append((rx, payload))
                 k += 1
                 continue
+            if st.startswith('//@inv? '):
+                # optional loop contract: used if the loop is (still) there; a function that no longer loops needs none
+                optional_invs.add(len(invs))
+                st = '//@inv ' + st[len('//@inv? '):]
             if st.startswith('//@inv ') or st.startswith('//@at ') or st.startswith('//@after ') or st.startswith('//@blockend '):
                 is_inv = st.startswith('//@inv ')
                 is_after = st.startswith('//@after ')
@@ -714,8 +721,8 @@ class Unit:
                         self.emit(pl, ('tpl', rel_tpl, lno))
         if len(used_after) != len(afters):
             raise AnchorLost('%s::%s: proof-hint anchor(s) not found: %s' % (rel, name, [afters[i][0] for i in range(len(afters)) if i not in used_after]))
-        if len(used_inv) != len(invs) or len(used_at) != len(ats):
-            missing = [invs[i][0] for i in range(len(invs)) if i not in used_inv] + \
+        if len(used_inv | optional_invs) != len(invs) or len(used_at) != len(ats):
+            missing = [invs[i][0] for i in range(len(invs)) if i not in used_inv and i not in optional_invs] + \
                       [ats[i][0] for i in range(len(ats)) if i not in used_at]
             raise AnchorLost('%s::%s: proof-hint anchor(s) not found: %s' % (rel, name, missing))
         qn = (kw.get('impl', '') + '::' if kw.get('impl') else '') + name
